@@ -98,6 +98,7 @@ func BlockingPrograms() []Prog {
 	return []Prog{
 		p("channel_pop_operator", "ch := Channel::[Int]()\nv := <<ch\no(v)\n"),
 		p("channel_pop_in_method", "def take(ch: Channel[Int]): Int\n  v := <<ch\n  1\nend\no(take(Channel::[Int]()))\n"),
+		p("channel_pop_method", "ch := Channel::[Int]()\ndo\n  v := ch.pop\n  o(v)\ncatch Channel::ClosedError() as e\n  o(0)\nend\n"),
 		p("channel_push_unbuffered", "ch := Channel::[Int]()\nch << 1\no(1)\n"),
 		p("channel_push_full", "ch := Channel::[Int](1)\nch << 1\nch << 2\no(1)\n"),
 		p("channel_iterate", "ch := Channel::[Int]()\nfor v in ch\n  o(v)\nend\n"),
